@@ -100,6 +100,17 @@ CONFIG = {
         "rule": "c18api: exhaustive 16 shape sets (built two ways) x 4 shapes through ShapeSet::{contains, check, Display, is_empty}; c18recv: 74 FromDeriveInput receivers (empty, each of the 11 words alone, all 55 pairs, struct-only, enum-only, mixed, repeated) x bodies (4 struct styles, union, every enum of 0..3 [thorough: 0..4] variants over all style combinations; quick samples the larger enums) + 32 FromVariant receivers (all subsets of the 5 variant words) x 4 shapes; distinct by case text",
         "assumptions": ["the receivers' own `supports(..)` declarations are read back from the compiled corpus source and parsed by the model"],
     },
+    "C19": {
+        "lean_modules": ["Darling.Props.C19"],
+        "streams": [
+            {"name": "c19a", "n": {"quick": 15000, "thorough": 300000},
+             "trivial": lambda case, ans: ans == "(uses () ())"},
+            {"name": "c19b", "n": {"quick": 4000, "thorough": 80000},
+             "trivial": lambda case, ans: ans == "(bounded)"},
+        ],
+        "rule": "c19a: random types from a grammar over every syn::Type form valid in field position (depth 0..5; parameters planted at leading segments, path tails, global paths, generic / associated-type / constraint arguments, fn and Fn(..) signatures, references, slices, arrays and const-expression lengths, tuples, pointers, trait objects with for<..> binders, impl Trait, qualified selves, macro bodies) x random query sets of type parameters and lifetimes x both purposes, through uses_type_params / uses_lifetimes; non-trivial = non-empty answer. c19b: random generic struct/enum receivers (1..3 type params, optional lifetime/const params, bounds, where-clause, fields and variants with skip in all spellings) through darling_core::derive::{from_meta, from_derive_input, from_field, from_variant, from_type_param}: the emitted impl's generics, where-clause and added bounds are read off the returned tokens",
+        "assumptions": ["for<'x> binders that re-declare a queried lifetime are outside the judged domain (rustc rejects such shadowing)", "c19b: which fields are skipped is read from the declaration by the harness (own reader of `skip`, `skip = bool`)"],
+    },
     "C05": {
         "lean_modules": ["Darling.Props.C05"],
         "streams": [
